@@ -5,6 +5,7 @@ OUT="$1"; shift
 N=${JOBS:-8}
 HEAD=$(git -C /repo rev-parse HEAD)
 i=0
+rm -f /tmp/mp_out_*.txt /tmp/mp_list_*.txt
 for d in "$@"; do echo "$d"; done > /tmp/mp_all.txt
 for j in $(seq 1 $N); do
   W=/tmp/mp_wt_$j
